@@ -17,21 +17,24 @@ open Gen.C20 Aegean.Model.C20 Aegean.Tiling
 /-! ### Obligations on the regenerated arithmetic (these break if the source changes meaning) -/
 
 theorem rowMin_zero (rows n : Nat) : rowMin rows n 0 = 0 := by
-  simp [rowMin]
+  simp [rowMin, rowMinHand]
 
 theorem rowMax_last (rows n : Nat) (hn : 0 < n) : rowMax rows n (n - 1) = rows := by
-  simp only [rowMax]
-  rw [Nat.sub_add_cancel hn]
+  simp only [rowMax, rowMaxHand]
+  have e : n - 1 + 1 = n := Nat.sub_add_cancel hn
   first
-    | exact Nat.mul_div_cancel _ hn
-    | exact Nat.mul_div_cancel_left _ hn
+    | (rw [e]
+       first
+         | exact Nat.mul_div_cancel _ hn
+         | exact Nat.mul_div_cancel_left _ hn)
+    | (apply Nat.div_eq_of_eq_mul_left hn; grind)
 
 theorem rowMax_eq_next (rows n i : Nat) : rowMax rows n i = rowMin rows n (i + 1) := by
-  simp only [rowMax, rowMin]
+  simp only [rowMax, rowMin, rowMaxHand, rowMinHand]
   try grind
 
 theorem rowMin_le_rowMax (rows n i : Nat) : rowMin rows n i ≤ rowMax rows n i := by
-  simp only [rowMax, rowMin]
+  simp only [rowMax, rowMin, rowMaxHand, rowMinHand]
   apply Nat.div_le_div_right
   first
     | exact Nat.mul_le_mul_left _ (Nat.le_succ _)
@@ -228,5 +231,186 @@ example : rowMin 10 3 1 = 3 ∧ rowMax 10 3 1 = 6 ∧ rowMax 10 3 2 = 10 := by d
 /-- the float arithmetic `int(NAXIS2/n*(i+1))` of the pinned tree loses the only row of a
     one-row image split into 49 bands: the last band ends at 0, not 1 -/
 theorem float_bands_lose_row : rowMaxFloat 1 49 48 = 0 := by decide +kernel
+
+
+/-! ### The whole function, assembled from the pieces regenerated from the source
+
+Besides the two row bounds, the translator regenerates the validation prologue (`guard`), the header adjustments of both
+return sites (`hdr…P`, `hdr…C`), the NAXIS dispatch with the subscript of `.section[…]` per branch (`sec…`) and the
+subscript of the compressed branch (`cmp…`).  `Model.C20.loadFull` is the fixed glue; the theorems below are about
+`loadFull genPieces`, for every well-formed image, every plane, every valid band. -/
+
+set_option linter.unusedSimpArgs false
+
+/-- the pieces regenerated from the source on this run -/
+def genPieces : Pieces :=
+  { guard := Gen.C20.guard, rowMin := rowMin, rowMax := rowMax,
+    hdrNaxis2P := hdrNaxis2P, hdrCrpix2P := hdrCrpix2P, hdrNaxis2C := hdrNaxis2C, hdrCrpix2C := hdrCrpix2C,
+    secN := secN, secL0 := secL0, secL1 := secL1, secRlo := secRlo, secRhi := secRhi, secClo := secClo, secChi := secChi,
+    cmpRlo := cmpRlo, cmpRhi := cmpRhi, cmpClo := cmpClo, cmpChi := cmpChi }
+
+/-- **guard_accepts_iff**: the regenerated validation prologue raises nothing exactly for `0 ≤ i < n` -/
+theorem guard_accepts_iff (i n : Int) : Gen.C20.guard i n = 0 ↔ (0 ≤ i ∧ i < n) := by
+  unfold Gen.C20.guard
+  try unfold guardHand
+  first
+  | grind
+  | (constructor
+     · intro h; simp only at h; split at h <;> (try split at h) <;> (try split at h) <;> omega
+     · intro ⟨h1, h2⟩
+       have a : ¬ (n ≤ 0) := by omega
+       have b : ¬ (i ≥ n) := by omega
+       have c : ¬ (i < 0) := by omega
+       simp [a, b, c])
+
+theorem hdr_plain (naxis2 crpix2 lo hi : Int) :
+    hdrNaxis2P naxis2 crpix2 lo hi = hi - lo ∧ hdrCrpix2P naxis2 crpix2 lo hi = crpix2 - lo := by
+  unfold hdrNaxis2P hdrCrpix2P; try unfold hdrNaxis2Hand hdrCrpix2Hand
+  constructor <;> (try simp) <;> (try omega)
+
+theorem hdr_compressed (naxis2 crpix2 lo hi : Int) :
+    hdrNaxis2C naxis2 crpix2 lo hi = hi - lo ∧ hdrCrpix2C naxis2 crpix2 lo hi = crpix2 - lo := by
+  unfold hdrNaxis2C hdrCrpix2C; try unfold hdrNaxis2Hand hdrCrpix2Hand
+  constructor <;> (try simp) <;> (try omega)
+
+
+theorem slice_full {β : Type} (r : List β) (k : Nat) (h : r.length = k) : Aegean.Model.C20.slice r 0 k = r := by
+  simp [Aegean.Model.C20.slice, ← h]
+
+theorem mem_slice {β : Type} (l : List β) (lo hi : Nat) (x : β) (h : x ∈ Aegean.Model.C20.slice l lo hi) : x ∈ l := by
+  unfold Aegean.Model.C20.slice at h
+  exact List.mem_of_mem_drop (List.mem_of_mem_take h)
+
+theorem sliceRC_allcols {β : Type} (plane : List (List β)) (lo hi k : Nat) (h : ∀ r ∈ plane, r.length = k) :
+    sliceRC plane lo hi 0 k = Aegean.Model.C20.slice plane lo hi := by
+  unfold sliceRC
+  conv => rhs; rw [← List.map_id (Aegean.Model.C20.slice plane lo hi)]
+  apply List.map_congr_left
+  intro r hr
+  simp [slice_full r k (h r (mem_slice _ _ _ _ hr))]
+
+
+/-- what the property promises for band `i` of `n` of the plane `plane` of an image with reference row `crpix2` -/
+def promised {β : Type} (plane : List (List β)) (crpix2 : Int) (i n : Nat) : FullBand β :=
+  { data := Aegean.Model.C20.slice plane (rowMin plane.length n i) (rowMax plane.length n i),
+    naxis2 := (rowMax plane.length n i : Int) - (rowMin plane.length n i : Int),
+    crpix2 := crpix2 - (rowMin plane.length n i : Int) }
+
+theorem wf_plane {β : Type} (img : Img β) (cube : Nat) (plane : List (List β)) (hw : WF img)
+    (hp : planeOf img cube = some plane) : plane.length = img.naxis2 ∧ ∀ r ∈ plane, r.length = img.naxis1 := by
+  unfold planeOf at hp
+  have key : ∀ (a b : Nat), (img.data[a]? >>= (·[b]?)) = some plane →
+      plane.length = img.naxis2 ∧ ∀ r ∈ plane, r.length = img.naxis1 := by
+    intro a b h
+    cases hv : img.data[a]? with
+    | none => simp [hv] at h
+    | some vol =>
+      simp [hv] at h
+      exact hw vol (List.mem_of_getElem? hv) plane (List.mem_of_getElem? h)
+  split at hp
+  · exact key _ _ hp
+  · exact key _ _ hp
+  · exact key _ _ hp
+  · simp at hp
+
+/-- **full_plain**: for every well-formed 2-D / 3-D / 4-D image, every valid band specification and every plane
+    index that exists, the function assembled from the regenerated pieces returns exactly the promised band -/
+theorem full_plain {β : Type} (img : Img β) (cube : Nat) (plane : List (List β)) (i n : Nat) (hi : i < n)
+    (hw : WF img) (hp : planeOf img cube = some plane) :
+    loadFull genPieces img false cube i n = .ok (promised plane img.crpix2 i n) := by
+  obtain ⟨hl, hc⟩ := wf_plane img cube plane hw hp
+  have hg : Gen.C20.guard (i : Int) (n : Int) = 0 := (guard_accepts_iff _ _).2 ⟨by omega, by omega⟩
+  unfold loadFull promised
+  simp only [genPieces, hg, ne_eq, not_true_eq_false, ↓reduceIte, Int.toNat_natCast, Bool.false_eq_true]
+  rw [(hdr_plain _ _ _ _).1, (hdr_plain _ _ _ _).2, hl]
+  unfold planeOf at hp
+  split at hp
+  · rename_i h2
+    cases hv : img.data[0]? with
+    | none => simp [hv] at hp
+    | some vol =>
+      simp [hv] at hp
+      simp [readSection, secN, secL0, secL1, secRlo, secRhi, secClo, secChi, secNHand, secL0Hand, secL1Hand, secRloHand, secRhiHand, secCloHand, secChiHand, h2, hv, hp, sliceRC_allcols _ _ _ _ hc]
+  · rename_i h3
+    cases hv : img.data[0]? with
+    | none => simp [hv] at hp
+    | some vol =>
+      simp [hv] at hp
+      simp [readSection, secN, secL0, secL1, secRlo, secRhi, secClo, secChi, secNHand, secL0Hand, secL1Hand, secRloHand, secRhiHand, secCloHand, secChiHand, h3, hv, hp, sliceRC_allcols _ _ _ _ hc]
+  · rename_i h4
+    cases hv : img.data[0]? with
+    | none => simp [hv] at hp
+    | some vol =>
+      simp [hv] at hp
+      simp [readSection, secN, secL0, secL1, secRlo, secRhi, secClo, secChi, secNHand, secL0Hand, secL1Hand, secRloHand, secRhiHand, secCloHand, secChiHand, h4, hv, hp, sliceRC_allcols _ _ _ _ hc]
+  · simp at hp
+
+
+/-- **full_compressed**: for a compressed file the band is cut from the expanded image the same way -/
+theorem full_compressed {β : Type} (img : Img β) (cube : Nat) (plane : List (List β)) (i n : Nat) (hi : i < n)
+    (hw : WF img) (hp : (img.data[0]? >>= (·[0]?)) = some plane) :
+    loadFull genPieces img true cube i n = .ok (promised plane img.crpix2 i n) := by
+  have hwf : plane.length = img.naxis2 ∧ ∀ r ∈ plane, r.length = img.naxis1 := by
+    cases hv : img.data[0]? with
+    | none => simp [hv] at hp
+    | some vol =>
+      simp [hv] at hp
+      exact hw vol (List.mem_of_getElem? hv) plane (List.mem_of_getElem? hp)
+  obtain ⟨hl, hc⟩ := hwf
+  have hg : Gen.C20.guard (i : Int) (n : Int) = 0 := (guard_accepts_iff _ _).2 ⟨by omega, by omega⟩
+  unfold loadFull promised
+  simp only [genPieces, hg, ne_eq, not_true_eq_false, ↓reduceIte, Int.toNat_natCast]
+  rw [(hdr_compressed _ _ _ _).1, (hdr_compressed _ _ _ _).2, hl]
+  cases hv : img.data[0]? with
+  | none => simp [hv] at hp
+  | some vol =>
+    simp [hv] at hp
+    simp [cmpRlo, cmpRhi, cmpClo, cmpChi, cmpRloHand, cmpRhiHand, cmpCloHand, cmpChiHand, hp, sliceRC_allcols _ _ _ _ hc]
+
+/-- **full_rejects_invalid**: every band specification outside `0 ≤ i < n` is rejected by one of the `raise`s of
+    the validation prologue, before the file is looked at, compressed or not -/
+theorem full_rejects_invalid {β : Type} (img : Img β) (c : Bool) (cube : Nat) (i n : Int) (h : ¬ (0 ≤ i ∧ i < n)) :
+    ∃ k, k ≠ 0 ∧ loadFull genPieces img c cube i n = .error (.guard k) := by
+  have hg : Gen.C20.guard i n ≠ 0 := fun e => h ((guard_accepts_iff i n).1 e)
+  exact ⟨Gen.C20.guard i n, hg, by simp [loadFull, genPieces, hg]⟩
+
+/-- **full_tiles**: the data of the promised bands `0 … n-1`, concatenated, are the rows of the plane, each once -/
+theorem full_tiles {β : Type} (plane : List (List β)) (crpix2 : Int) (n : Nat) (hn : 0 < n) :
+    ((List.range n).map (fun i => (promised plane crpix2 i n).data)).flatten = plane :=
+  bands_concat plane n hn
+
+/-- **full_header**: the band's NAXIS2 is its number of rows, and row `y` of the band is as far from the band's
+    reference row as row `y + rowMin` of the image is from the image's — so any FITS WCS (a function of
+    `pixel − CRPIX`, the other cards being untouched) sends them to the same sky position -/
+theorem full_header {β : Type} (plane : List (List β)) (crpix2 : Int) (i n : Nat) (hn : 0 < n) (hi : i < n) :
+    (promised plane crpix2 i n).naxis2 = ((promised plane crpix2 i n).data.length : Int) ∧
+    ∀ y : Nat, ((y : Int) + 1) - (promised plane crpix2 i n).crpix2
+        = (((y + rowMin plane.length n i : Nat) : Int) + 1) - crpix2 := by
+  constructor
+  · have := band_length plane n i hn hi
+    have := rowMin_le_rowMax plane.length n i
+    simp only [promised]; omega
+  · intro y; simp only [promised]; omega
+
+/-- **full_only_requested_plane**: two well-formed images with the same requested plane and the same CRPIX2 give
+    the same band, whatever their other planes hold -/
+theorem full_only_requested_plane {β : Type} (a b : Img β) (cube : Nat) (plane : List (List β)) (i n : Nat) (hi : i < n)
+    (ha : WF a) (hb : WF b) (pa : planeOf a cube = some plane) (pb : planeOf b cube = some plane)
+    (hc : a.crpix2 = b.crpix2) :
+    loadFull genPieces a false cube i n = loadFull genPieces b false cube i n := by
+  rw [full_plain a cube plane i n hi ha pa, full_plain b cube plane i n hi hb pb, hc]
+
+/-- the regenerated pieces agree with the hand pieces the model was written from (so the driver's `full` operation,
+    which runs `genPieces`, and the theorems talk about the same function) -/
+theorem gen_guard_eq_hand (i n : Int) : Gen.C20.guard i n = guardHand i n := by
+  unfold Gen.C20.guard; try unfold guardHand
+  first | rfl | grind
+
+/-- non-vacuity: a 3-D image with two planes of 3 rows × 2 columns is well-formed, and band 1 of 2 of plane 1 is its
+    last two rows -/
+example : (loadFull genPieces
+    ({ naxis := 3, naxis1 := 2, naxis2 := 3, crpix2 := 2,
+       data := [[[[1, 2], [3, 4], [5, 6]], [[7, 8], [9, 10], [11, 12]]]] } : Img Nat) false 1 1 2).toOption.map
+      (fun b => (b.data, b.naxis2, b.crpix2)) = some ([[9, 10], [11, 12]], 2, 1) := by decide
 
 end Aegean.Properties.C20
